@@ -90,7 +90,7 @@ inductive Cmd
   | saddPush (ids : List (Option Nat)) (route : String) (data : List Nat)
   | saddBcast (c route msg : String)
   | sdelPush (id : Nat) (ids : List Nat) (route : String) (data : List Nat)
-  | bcastRace (c route msg : String) (then : Op)
+  | bcastRace (c route msg : String) (after : Op)
   | bad
 
 /-- id list in which `self` stands for the id being handed out -/
